@@ -24,12 +24,17 @@ class ReadCounter:
         return getattr(self.inner, name)
 
 
-def custom_backend():
+def custom_backend(sized=False):
     from vakt.cache import AllowanceCacheBackend
 
     class DictBackend(AllowanceCacheBackend):
         def __init__(self):
             self.store = {}
+
+        if sized:
+            # a container-like back-end: empty (and therefore falsy) when it is handed over
+            def __len__(self):
+                return len(self.store)
 
         def wrap(self, func):
             def cached(inquiry):
@@ -59,7 +64,7 @@ def run_cached(c):
     try:
         counter = ReadCounter(h.storage)
         ck = specs.mk_checker(c['checker'])
-        backend = custom_backend() if c.get('custom') else None
+        backend = custom_backend(sized=c.get('custom') == 'sized') if c.get('custom') else None
         if c.get('custom'):
             guard, st, cache = create_cached_guard(counter, ck, cache=backend)
         else:
@@ -200,7 +205,7 @@ class CachedGuardStream(Stream):
                     ops.append(['update', p])
                 else:
                     ops.append(['delete', rng.choice(['u0', 'u1', 'u2'])])
-            custom = (i % 5 == 4)
+            custom = (i % 5 == 4) and ('sized' if i % 10 == 9 else True)
             yield {'checker': ck, 'backend': backend, 'rxtable': sc['rxtable'], 'inquiries': inqs, 'classes': classes,
                    'cap': None if custom else rng.choice(CAPS), 'custom': custom, 'ops': ops,
                    'drop_handle': rng.random() < 0.5,
